@@ -8,7 +8,9 @@ HERE="$(cd "$(dirname "$0")/.." && pwd)"
 IDS="$*"
 [ -z "$IDS" ] && IDS=$(/venv/bin/python -c "import json,sys; print(json.load(open('$D/meta.json'))['property'])")
 git -C /repo apply "$D/patch.diff" || { echo "patch does not apply"; exit 3; }
-trap 'git -C /repo checkout -- . ' EXIT
+SCRATCH=$(mktemp -d)
+export VERIF_EVIDENCE_DIR="$SCRATCH"
+trap 'git -C /repo checkout -- . ; rm -rf "$SCRATCH"' EXIT
 for id in $IDS; do
   out=$(cd "$HERE" && timeout 1200 ./check "$id" --tier "${TIER:-quick}" 2>&1); rc=$?
   n=$(printf '%s\n' "$out" | grep -c '^VIOLATION')
